@@ -42,7 +42,9 @@ P = {'id': 'C03',
               'batch_absent',
               'nltb_get_by_key',
               'nltb_get_by_id',
-              'nltb_standin_lawful'],
+              'nltb_standin_lawful',
+              'mem_from_data_history_refines_spec',
+              'mem_from_data_ids_fresh'],
  'trusted': ['modelled (M+S): src/blob_store/memory.rs; mixed_len.rs (bitmap rank as count_occ-style spec rank, UintVecMin0 offsets at value level); '
              'zip_offset_builder.rs + zip_offset.rs + sorted_uint_vec.rs (bit-exact file image compared on every run); simple_zip.rs (fragmenting and the string pool); '
              'zero_length.rs; plain.rs (directory as a finite map, decimal file names, u32 parsing, close + reopen); traits.rs as a record of nine functions; '
